@@ -79,16 +79,23 @@ static int read_from_tree(BitStreamReader *reader, TreeElement *tree)
  * behind the current head of the CURRENT window; appending = store at the head, advance the head (mod RING), hand
  * the byte to the caller's buffer.  Checked at every step of the real copy loop, so the assertions are local and
  * the whole length range stays symbolic.  (That real output_byte changes nothing else: harness_outbyte.)
- * Cut point: after each step the monitor re-chooses the window CONTENTS arbitrarily (__CPROVER_havoc_slice), so
+ * Cut point: after each step the monitor re-chooses the window CONTENTS arbitrarily (havoc_window), so
  * every step is checked against an arbitrary window rather than the one computed so far - an over-approximation
  * (more behaviours than the real run), which keeps each step's formula independent of the previous ones.  The
  * head position is not cut; its closed form is asserted at each step and then assumed as a lemma. */
 static unsigned steps, g_d, g_is_copy, g_pos0;
+static void havoc_window(LHANewDecoder *decoder)
+{
 #if defined(__CPROVER__)
-#define HAVOC_WINDOW(d) __CPROVER_havoc_slice((d)->ringbuf, RING)
+	LHANewDecoder fresh;                  /* uninitialised = arbitrary */
+	fresh.bit_stream_reader = decoder->bit_stream_reader;
+	fresh.ringbuf_pos = decoder->ringbuf_pos;
+	fresh.block_remaining = decoder->block_remaining;
+	*decoder = fresh;                     /* window contents (and the unused trees) re-chosen arbitrarily */
 #else
-#define HAVOC_WINDOW(d) ((void) 0)
+	(void) decoder;
 #endif
+}
 static void output_byte(LHANewDecoder *decoder, uint8_t *buf, size_t *buf_len, uint8_t b)
 {
 	unsigned head = decoder->ringbuf_pos;
@@ -97,14 +104,14 @@ static void output_byte(LHANewDecoder *decoder, uint8_t *buf, size_t *buf_len, u
 	CHECK(head == ((g_pos0 + steps) & (RING - 1)), "C01 H01.cmd: head = initial position + bytes appended so far (mod RING)");
 	ASSUME(head == ((g_pos0 + steps) & (RING - 1)));      /* proved just above: lemma for the following checks */
 	if (g_is_copy) {
-		CHECK(b == decoder->ringbuf[(head + RING - 1 - g_d) & (RING - 1)], "C01 H01.cmd: each copy step appends the byte d+1 behind the head of the current window");
+		CHECK(b == decoder->ringbuf[(g_pos0 + RING - g_d - 1 + steps) % RING], "C01 H01.cmd: each copy step appends the byte d+1 behind the head of the current window");
 	} else {
 		CHECK(b == (u8) g_code, "C01 H01.cmd: literal step appends the literal");
 	}
 	real_output_byte(decoder, buf, buf_len, b);
 	CHECK(*buf_len == at + 1 && buf[at] == b, "C01 H01.cmd: the byte is handed to the caller");
 	CHECK(decoder->ringbuf[head] == b && decoder->ringbuf_pos == ((head + 1) & (RING - 1)), "C01 H01.cmd: the byte enters the window at the head; head advances mod RING");
-	HAVOC_WINDOW(decoder);
+	havoc_window(decoder);
 	++steps;
 }
 
